@@ -30,7 +30,7 @@ package store
 //@ iface fileRepository.Store
 //@   params ctx, file
 //@   requires txid:  file.TxId != ""
-//@   modifies world.recSeq, world.recTx, world.recKey, world.hasRec
+//@   modifies world.recSeq, world.recTx, world.recKey, world.hasRec, world.logSeq, world.logCid
 //@   ensures ok:     result == nil ==> world.hasRec[file.ContentId] && world.recTx[file.ContentId] == file.TxId && world.recKey[file.ContentId] == file.Key
 //@   ensures failed: result != nil ==> forall c string :: world.hasRec[c] == old(world.hasRec[c]) && world.recTx[c] == old(world.recTx[c]) &&
 //@                      world.recKey[c] == old(world.recKey[c]) && world.recSeq[c] == old(world.recSeq[c])
@@ -99,6 +99,7 @@ package store
 //@   exitassert only:    result1 == nil ==> forall j int :: 0 <= j && j < len(result0) ==>
 //@                          exists m int :: 0 <= m && m < len(files) && result0[j] == files[m].Key && world.hasCRec[files[m].ContentId]
 //@ loop (*UseCase).GetKeys#1
+//@   invariant own:    backing(keys) == nil || fresh(backing(keys))
 //@   invariant idx:    -1 <= rangeindex && rangeindex + 1 <= len(files) && len(keys) <= rangeindex + 1
 //@   invariant listed: forall m int :: 0 <= m && m <= rangeindex && world.hasCRec[files[m].ContentId] ==>
 //@                        exists j int :: 0 <= j && j < len(keys) && keys[j] == files[m].Key
@@ -109,7 +110,7 @@ package store
 // ---- Delete: a tombstone version (fresh content id without a content record) in the caller's transaction ----
 //@ func (*UseCase).Delete
 //@   requires deps:      depsOk(u)
-//@   modifies world.recSeq, world.recTx, world.recKey, world.hasRec
+//@   modifies world.recSeq, world.recTx, world.recKey, world.hasRec, world.logSeq, world.logCid
 //@   ensures  notrace:   result != nil ==> versionsKept()
 //@   ensures  tombstone: result == nil ==> exists c string :: world.hasRec[c] && !old(world.hasRec[c]) && !world.hasCRec[c] && world.recKey[c] == key && world.recTx[c] == ctxTxId(ctx) &&
 //@                          forall d string :: d != c ==> world.hasRec[d] == old(world.hasRec[d]) && world.recTx[d] == old(world.recTx[d]) &&
@@ -120,7 +121,7 @@ package store
 // vUnchanged: no version record changed.
 //@ func (*UseCase).Set
 //@   requires deps:      depsOk(u)
-//@   modifies world.recSeq, world.recTx, world.recKey, world.hasRec, world.hasCRec, world.cParent, world.hasBlob, world.blob, model.Dir.*
+//@   modifies world.recSeq, world.recTx, world.recKey, world.hasRec, world.logSeq, world.logCid, world.hasCRec, world.cParent, world.hasBlob, world.blob, world.dirCnt, model.Dir.*, mem[string]
 //@   ensures  emptykey:  key == "" ==> result == fs_db.ErrEmptyKey
 //@   ensures  emptynop:  key == "" ==> versionsKept() && forall c string :: world.hasCRec[c] == old(world.hasCRec[c]) && world.hasBlob[c] == old(world.hasBlob[c])
 //@   ensures  notrace:   result != nil ==> versionsKept()
